@@ -57,6 +57,52 @@ let run_app flags cbs =
        | f -> List.rev (fault_text f :: acc)) in
   Stdlib.String.concat " | " (go c07_init cbs [])
 
+
+(* ---- Correlator / SyncWord index models (V = Z); same text protocol as the harness commands corr / sw *)
+let join_z l = Stdlib.String.concat "." (List.map (fun x -> string_of_int (int_of_z x)) l)
+let finish outs fault = print_endline (Stdlib.String.concat " " (List.rev outs) ^ (if fault = "" then "" else (if outs = [] then "" else " | ") ^ fault))
+let tail1 (op : string) = int_of_string (Stdlib.String.sub op 1 (Stdlib.String.length op - 1))
+
+let run_corr ops =
+  let ((bsize, tsize), _) = c07_corr_sizes in
+  let buffer = List.init (int_of_nat bsize) (fun k -> z_of_int (- (k + 1))) in
+  let weights = List.map z_of_int [1; 2; 4; 8; 16; 32; 64; -128] in
+  let rec go c ops outs =
+    match ops with
+    | [] -> finish outs ""
+    | op :: r ->
+      (match op.[0] with
+       | 's' -> (match c07_corr_sample c (z_of_int (tail1 op)) with
+                 | Ok c' -> go c' r (Printf.sprintf "p=%d.%d.%d" (int_of_nat c'.c_pos) (int_of_nat c'.c_prev) (int_of_nat (c07_corr_index c')) :: outs)
+                 | f -> finish outs (fault_text f))
+       | 'c' -> (match c07_corr_correlate c weights with
+                 | Ok xs -> go c r (Printf.sprintf "c=%d" (List.fold_left (fun a (w, x) -> a + int_of_z w * int_of_z x) 0 xs) :: outs)
+                 | f -> finish outs (fault_text f))
+       | 'o' -> (match c07_corr_osl c (nat_of_int (tail1 op)) with
+                 | Ok ((c', _), _) -> go c' r (("o=" ^ join_z c'.c_tmp) :: outs)
+                 | f -> finish outs (fault_text f))
+       | 'a' -> (match c07_corr_apply c (nat_of_int (tail1 op)) with
+                 | Ok xs -> go c r (("a=" ^ join_z xs) :: outs)
+                 | f -> finish outs (fault_text f))
+       | _ -> finish outs "?") in
+  go (c07_corr_init buffer (List.init (int_of_nat tsize) (fun _ -> z_of_int (-7)))) ops []
+
+let run_sw ops =
+  let (_, ssize) = c07_corr_sizes in
+  let rec go s ops outs =
+    match ops with
+    | [] -> finish outs ""
+    | "u" :: r -> let (s', u) = c07_sw_take_updated s in go s' r (Printf.sprintf "u=%d" (int_of_z u) :: outs)
+    | op :: r ->
+      (match Stdlib.String.split_on_char ':' op with
+       | [v; i] ->
+         let v = int_of_string v in
+         (match c07_sw_step s (v <> 0) (z_of_int v) (nat_of_int (int_of_string i)) with
+          | Ok (s', t) -> go s' r (Printf.sprintf "t=%d.%d/%s" (int_of_nat t) (if s'.sw_trig then 1 else 0) (join_z s'.sw_samples) :: outs)
+          | f -> finish outs (fault_text f))
+       | _ -> finish outs "?") in
+  go (c07_sw_init (List.init 8 (fun _ -> z_of_int 1)) (List.init (int_of_nat ssize) (fun _ -> z_of_int 9))) ops []
+
 let q_of num den = { qnum = z_of_int num; qden = pos_of_int den }
 
 let () =
@@ -103,4 +149,6 @@ let () =
       (match c07_sample_index_update0 (q_of (int_of_string num) (int_of_string den)) with
        | Some s -> Printf.printf "si=%d\n" (int_of_z s)
        | None -> print_endline "UB")
+    | ["corr"; ops] -> run_corr (Stdlib.String.split_on_char ',' ops)
+    | ["sw"; ops] -> run_sw (Stdlib.String.split_on_char ',' ops)
     | _ -> print_endline "?")
